@@ -145,6 +145,7 @@ func (rec *gffRecord) writeGFF(r *rand.Rand) string {
 	if r.Intn(3) == 0 {
 		sb.WriteString("##species https://example.org/taxonomy\n")
 	}
+	groups := r.Intn(3) == 0
 	for _, f := range rec.Feats {
 		var kv []string
 		for k, v := range f.Attrs {
@@ -153,6 +154,9 @@ func (rec *gffRecord) writeGFF(r *rand.Rand) string {
 		sort.Strings(kv)
 		r.Shuffle(len(kv), func(i, j int) { kv[i], kv[j] = kv[j], kv[i] })
 		fmt.Fprintf(&sb, "%s\t%s\t%s\t%d\t%d\t%s\t%s\t%s\t%s\n", f.Seqid, f.Source, f.Type, f.Start, f.End, f.Score, f.Strand, f.Phase, strings.Join(kv, ";"))
+		if groups && r.Intn(3) == 0 {
+			sb.WriteString("###\n") // GFF3: all forward references of the features so far are resolved; more features may follow
+		}
 	}
 	if r.Intn(2) == 0 {
 		sb.WriteString("###\n")
